@@ -45,6 +45,7 @@ def good : Code where
   bgOrigin := .plainCancel
   bgCancelOnlyInClose := true
   srcNextGetsBg := true
+  bgCtxUsesPinned := true
 
 /-! The generated guards, over the model's natural-number state. -/
 theorem firstItemCond_nat (n : Nat) : (Gen.Batch.firstItemCond (n : Int) = true) ↔ n = 1 := by
